@@ -1004,7 +1004,11 @@ static const uint8_t *unmarshal_one_def(
                 JANET_OUT_OF_MEMORY;
             }
             for (int32_t i = 0; i < environments_length; i++) {
-                def->environments[i] = readint(st, &data);
+                int32_t inherit = readint(st, &data);
+                if (inherit < -1) {
+                    janet_panicf("invalid funcdef environment index %d", inherit);
+                }
+                def->environments[i] = inherit;
             }
         } else {
             def->environments = NULL;
